@@ -90,10 +90,39 @@ AllocOK(e) ==
   /\ (e.int > 0) = (a.irsv > 0)
   /\ (e.ds > 0) = (a.drsv > 0)
 
+(* the real MDCT-layer encoder against the real decoder (frames with budgets around the guard thresholds, symbols of
+   the speech layer in front): whatever the encoder decided to write, the decoder - bound to the model by the "celt"
+   events - must have read exactly that: equal final ranges (the clause of C02 at the level of the layer), durations,
+   and the post-filter period the decoder applies is the pre-filter period the encoder used *)
+CencOK(e) ==
+  /\ e.er = e.len /\ e.ee = 0
+  /\ e.dr = 120 * P2(e.LM)
+  /\ <<e.eh, e.el>> = <<e.rh, e.rl>>
+  /\ (e.pp > 0 => e.pp = e.pe)
+
+(* the real Opus encoder in the speech or hybrid mode, in-band FEC on: lock-step with the decoder (clause of C02), and
+   the LBRR flag the helper reports is the one the model reads from the first payload byte: the flags sit where
+   RdFlags puts them (single-frame packets; the bits are taken from the byte with the real range decoder) *)
+RECURSIVE BitsOfByte(_, _, _, _)
+BitsOfByte(buf, d, k, acc) == IF k = 0 THEN acc ELSE LET a == R!BitLogp(buf, d, 1) IN BitsOfByte(buf, a[1], k - 1, Append(acc, a[2]))
+ModelLbrr(toc, b0) ==
+  LET nf == IF Dur48(toc) > 960 THEN Dur48(toc) \div 960 ELSE 1
+      nch == TocChannels(toc)
+      buf == <<b0, 0, 0, 0>>
+      sd == RdFlags(SilkInit([nf |-> nf, nch |-> nch, vals |-> BitsOfByte(buf, R!Init(buf, 4), (nf + 1) * nch, <<>>)], 0), 0, 0)
+  IN IF sd.lbrrf[1] = 1 \/ sd.lbrrf[2] = 1 THEN 1 ELSE 0
+OpencOK(e) ==
+  /\ e.er > 0
+  /\ e.dr = e.frame
+  /\ <<e.eh, e.el>> = <<e.rh, e.rl>>
+  /\ (e.n >= 3 /\ TocCode(e.toc) = 0 /\ TocMode(e.toc) # MODE_CELT) => e.lb = ModelLbrr(e.toc, e.b0)
+
 CaseOK == LET e == Tr[l] IN
   CASE e.k = "celt" -> CeltOK(e)
     [] e.k = "silk" -> SilkOK(e)
     [] e.k = "alloc" -> AllocOK(e)
+    [] e.k = "cenc" -> CencOK(e)
+    [] e.k = "openc" -> OpencOK(e)
     [] e.k \in {"snew", "sbig"} -> TRUE
     [] OTHER -> FALSE
 DriftOK == LET e == Tr[l] IN e.k = "silk" => SilkDriftOK(e)
